@@ -381,6 +381,20 @@ def _xor_bit(x, y):
     return None
 
 
+def size_capped(x, cap=4000):
+    """Number of nodes of a nested tuple, counting stops at `cap`."""
+    n = 0
+    stack = [x]
+    while stack:
+        y = stack.pop()
+        n += 1
+        if n > cap:
+            return n
+        if isinstance(y, tuple):
+            stack.extend(y)
+    return n
+
+
 def bitop(op, a, b):
     w = width(a)
     if width(b) != w:
@@ -401,6 +415,8 @@ def bitop(op, a, b):
     for x, y in zip(ba, bb):
         r = f(x, y)
         if r is None:
+            if size_capped(a) + size_capped(b) > 4000:
+                raise Unsupported('bitwise expression over symbolic values grows without bound (a checksum or hash computed inside the analysed code?)')
             args = tuple(sorted((a, b), key=repr))
             leaf = ('opq', w, 'op', (op,) + args)
             return ('bv', w, tuple((leaf, i) for i in range(w)))
